@@ -232,8 +232,12 @@ mc_install_crash_hooks(void)
     __sanitizer_set_death_callback(mc_death_cb);
 #endif
     signal(SIGABRT, mc_sig_cb);
+#if !defined(__SANITIZE_ADDRESS__)
+    /* under the address sanitizer these two stay with the sanitizer: its report names the faulting function, which
+     * gives the same signature in the exploration and in a replay */
     signal(SIGSEGV, mc_sig_cb);
     signal(SIGFPE, mc_sig_cb);
+#endif
     signal(SIGALRM, mc_sig_cb);
     signal(SIGPROF, mc_sig_cb);
     atexit(mc_atexit_cb);
